@@ -36,8 +36,8 @@ fn programs(n: usize, seed: u64) -> Vec<Value> {
                {"op": "sstore", "s": 1, "v": 0}, {"op": "sstore", "s": 2, "v": 0}, {"op": "sstore", "s": 4, "v": 0}, {"op": "sstore", "s": 5, "v": 0}, {"op": "ret", "s": 3}]),
         json!([{"op": "sstore", "s": 3, "v": 0}, {"op": "burn", "n": 30}, {"op": "sstore", "s": 1, "v": 2}, {"op": "sstore", "s": 1, "v": 0}, {"op": "sstore", "s": 2, "v": 2}, {"op": "sstore", "s": 2, "v": 0},
                {"op": "sstore", "s": 4, "v": 2}, {"op": "sstore", "s": 4, "v": 0}, {"op": "sstore", "s": 5, "v": 2}, {"op": "sstore", "s": 5, "v": 0}, {"op": "sstore", "s": 9, "v": 2}, {"op": "sstore", "s": 9, "v": 0}]),
-        // a nested call that does the heavy work: the caller keeps 1/64 of the gas back
-        json!([{"op": "sub", "ops": [{"op": "burn", "n": 250}, {"op": "burn", "n": 250}, {"op": "burn", "n": 250}, {"op": "sstore", "s": 2, "v": 4}]}, {"op": "ret", "s": 2}]),
+        // (no heavy nested call here: the Cell ignores a callee's failure, so with an allowance between the callee's need and the
+        // caller's the transaction succeeds with another result - a program that inspects remaining gas in effect, which C16 excludes)
         // long calldata, zero-heavy and not, in front of a callee that does (almost) nothing: the need is intrinsic gas
         json!([{"op": "pad", "n": 700, "b": 0}]),
         json!([{"op": "pad", "n": 4000, "b": 0}]),
